@@ -38,6 +38,9 @@ def extra(led, tier, seed):
     from contracts import gemini_registry
     led.extend(gemini_registry.obligations())
     led.extend(gemini_registry.frame_obligations())
+    # named kernels / metrics with parameters: the affinity handed to the score is the named one with exactly the given parameters
+    from contracts import forwarding
+    led.extend(forwarding.affinity_obligations())
     from contracts import dtype_native
     led.extend(dtype_native.gemini_dtypes(seed))
     from contracts import gemini_large
